@@ -17,7 +17,9 @@ Configuration space (core, 3 328 valid combinations; thorough runs all, quick a 
   input       one file | one directory | a directory, a file and a second directory
   old content nothing | files | sub-directories | links to a file / directory outside (absolute and relative)
   flags       --force | no --force
-plus families on a reduced grid: --incremental, --force --incremental, C header pre-processing (`-l c -I`, spawns
+plus two-step histories — {no flag, -f, -inc, -f -inc} x {fresh workspace, foreign files only, the output of a real
+earlier `-f` run, that output plus user files (also inside frontend/ and bak/), the same with the input edited in
+between} — and families on a reduced grid: --incremental, --force --incremental, C header pre-processing (`-l c -I`, spawns
 clang, writes next to the file it is given), --strict-parse-mode, and an old workspace whose `bak`, `src`, `externs`,
 `frontend` entries are links to directories outside.  Every scratch root holds canaries beside the inputs, beside
 the workspace, behind every link, a sibling whose name merely extends the workspace's name, non-matching and
@@ -30,7 +32,11 @@ Oracle per configuration (W = realpath of the workspace directory lian documents
  (b) every mutating operation (audit / strace) targets a path inside W, or creates such an ancestor directory;
      allow-list: /dev, /proc, and the scratch HOME the harness points HOME/MPLCONFIGDIR/TMPDIR/XDG_CACHE_HOME at
      (counted and reported, never silently dropped; in practice only matplotlib's font cache);
- (c) without --force (and without --incremental) nothing at all changes; with --force whatever disappears lay in W;
+ (c) without --force and without --incremental nothing at all changes; with --force whatever disappears lay in W;
+     with --incremental but without --force no pre-existing byte of W is lost: every entry is still there in place
+     (same kind, content, link target) or — only for lian's own sub-directories, which the unchanged code copies to
+     W/bak/<same path> before rewriting them — its content is found there; no delete/rename operation hits a
+     pre-existing entry outside W/bak (whose own previous content is replaced by design: counted, not asserted);
  (d) bounded copying: the files / bytes the run wrote under W/src and W/externs do not exceed what the inputs (every
      real directory counted once, symlinks followed at most once) resp. lian's mock directory hold, nothing is
      written deeper than the inputs are, and the run does not die inside the workspace-preparation step.
@@ -64,6 +70,15 @@ ADDRS = ["abs", "rel", "ws-link-parent", "ws-is-link", "ws-dotdot-link", "input-
 KINDS = ["file", "dir", "several"]
 PRES = ["none", "files", "subdirs", "symlink-out"]
 HOSTILE_PRES = ["symlink-bak", "symlink-subdirs"]     # links named like lian's own sub-directories (families only)
+# two-step histories: the workspace is first produced by a real `-f` run of the same command (in a forked
+# grandchild), then the user drops files into it / edits the input, then the run under observation happens
+HISTORY_PRES = ["lian-run", "lian-run+user", "lian-run+edit", "lian-run+user+edit"]
+# The contract of an un-forced --incremental run, read off the unchanged code (WorkspaceBuilder.backup_workspace):
+# the previous content of bak/ is replaced (single-generation backup), each of these entries of the workspace is
+# *copied* to bak/<same relative path> before anything is rewritten, and nothing else in the workspace is touched.
+INC_MANAGED = ("src", "externs", "frontend", "semantic_p1", "semantic_p2", "semantic_p3",
+               "state_flow_p2_dot", "state_flow_p3_dot", "taint", "module_symbols")
+INC_BACKUP = "bak"
 MODES = ["force", "noforce"]
 NAME_CLASS = {"default-omitted": "default", "default-explicit": "default", "containing": "containing",
               "plain": "plain", "plain-base": "plain"}
@@ -222,7 +237,9 @@ def materialise(cfg, top):
     if K == "several":
         inputs += [single, other]
 
-    # what the workspace already holds
+    # what the workspace already holds (the two-step histories fill it later with a real run: history_stage)
+    if pre in HISTORY_PRES:
+        pre = "none"
     if pre != "none":
         os.makedirs(ws_real, exist_ok=True)
         _w(f"{ws_real}/old_note.txt", "old note\n")
@@ -266,6 +283,9 @@ def materialise(cfg, top):
     if w_arg is not None:
         argv += ["-w", w_arg]
     argv += ["--default-settings", settings] + lang_extra + inputs
+    # the first step of a two-step history: the same command, forced, quiet
+    argv_prior = ["lian", "lang", "-f", "-q", "-l", lang] + (["-w", w_arg] if w_arg is not None else [])
+    argv_prior += ["--default-settings", settings] + lang_extra + inputs
     # the workspace exactly as the CLI documents it, from the argument string
     w_doc = DEFAULT if w_arg is None else w_arg
     eff_doc = w_doc if DEFAULT in w_doc else os.path.join(w_doc, DEFAULT)
@@ -273,7 +293,8 @@ def materialise(cfg, top):
     assert os.path.realpath(eff_abs) == ws_real, (eff_abs, ws_real)
     link_targets = [outside, f"{root}/canary_top.txt"] if pre in ("symlink-out", "symlink-bak", "symlink-subdirs") else []
     return {"top": top, "root": root, "home": home, "cwd": cwd, "argv": argv, "eff_abs": eff_abs,
-            "ws_real": ws_real, "inputs": inputs, "lang": lang, "decoy": decoy, "link_targets": link_targets}
+            "ws_real": ws_real, "inputs": inputs, "lang": lang, "decoy": decoy, "link_targets": link_targets,
+            "argv_prior": argv_prior, "main_real": main_real}
 
 
 # ----------------------------------------------------------------------------------------------------------------
@@ -382,6 +403,9 @@ def signature(cfg, exp, clause, zone=None):
         return f"ws-arg-dotdot-through-symlink:{clause}{mode_q}"
     if zone == "old-workspace-link-target":
         return f"symlink-in-old-workspace:{clause}{mode_q}"
+    if zone in ("kept-workspace:foreign-entry", "kept-workspace:lian-output"):
+        # an un-forced run lost previous workspace content: where the workspace lies plays no part
+        return f"{zone}:{clause}{mode_q}"
     rel = exp["relation"]
     if exp["symlinked_ws"] and rel in ("identical", "input-inside-ws"):
         rel += "+symlinked-ws"
@@ -428,8 +452,8 @@ def judge(cfg, plan, exp, before, after, events, outcome, channel="audit"):
     def bump(k, n=1):
         cnt[k] = cnt.get(k, 0) + n
 
-    def fail(clause, detail, path=None):
-        zone = zone_of(path, plan, exp) if path else None
+    def fail(clause, detail, path=None, zone=None):
+        zone = zone or (zone_of(path, plan, exp) if path else None)
         if not any(c == clause and z == zone for c, _, z in fails):
             fails.append((clause, detail.replace(plan["top"], "<top>") + (f" [{zone}]" if zone else ""), zone))
 
@@ -476,6 +500,36 @@ def judge(cfg, plan, exp, before, after, events, outcome, channel="audit"):
         else:
             bump("snapshot: entries modified outside the workspace")
             fail("modified-outside", f"{short(ap)} outside the workspace changed ({what})", ap)
+    # (c) for --incremental without --force: no pre-existing byte of the workspace may be lost.  Kept = still there
+    # in place with the same kind / content / link target, or — only for lian's own sub-directories, which the
+    # unchanged code copies to bak/ before rewriting them — present with the same content at bak/<same path>.
+    # The previous content of bak/ itself is replaced by design (single-generation backup): counted, not asserted.
+    if cfg["mode"] == "inc":
+        ws_rel = os.path.relpath(ws, root)
+        pre_ws = "" if ws_rel == "." else ws_rel + "/"
+        for p in sorted(before):
+            if p == "." or not p.startswith(pre_ws) or p == ws_rel:
+                continue
+            inner = p[len(pre_ws):]
+            first = inner.split("/")[0]
+            b, a = before[p], after.get(p)
+            same = a is not None and a[0] == b[0] and a[1:4] == b[1:4]
+            if first == INC_BACKUP:
+                if not same:
+                    bump("incremental: previous bak/ entries replaced (single-generation backup, not asserted)")
+                continue
+            if same:
+                bump("incremental: pre-existing workspace entries kept in place")
+                continue
+            k = after.get(f"{pre_ws}{INC_BACKUP}/{inner}")
+            if first in INC_MANAGED and b[0] == "file" and k is not None and k[0] == "file" and k[1:3] == b[1:3]:
+                bump("incremental: rewritten entries whose previous content is kept under bak/")
+                continue
+            zone = "kept-workspace:lian-output" if first in INC_MANAGED else "kept-workspace:foreign-entry"
+            what = "was deleted" if a is None else "was overwritten"
+            bump("incremental: pre-existing workspace entries lost")
+            fail("lost-without-force", f"{b[0]} {short(absolute(p))} {what} by a run that was not given --force "
+                 f"(and is not kept under {INC_BACKUP}/ either)", zone=zone)
     if exp["conflict"]:
         gone = [r for r in exp["inputs_real"] if fs.inside(r, ws) and not os.path.lexists(r)]
         bump("conflict: configurations with an input inside the workspace")
@@ -491,6 +545,12 @@ def judge(cfg, plan, exp, before, after, events, outcome, channel="audit"):
             bump(f"{channel}: operations inside the workspace")
             if strict:
                 fail("mutation-without-force", f"{ev} on {short(path)} without --force")
+            elif (cfg["mode"] == "inc" and op in ("delete", "delete-tree", "rename-from")
+                  and not fs.inside(path, f"{ws}/{INC_BACKUP}") and os.path.relpath(path, root) in before):
+                # the unchanged code removes nothing but the previous backup when --force is absent
+                rel_in = os.path.relpath(path, ws).split("/")[0]
+                fail("delete-op-without-force", f"{ev} ({op}) removed {short(path)} although --force was not given",
+                     zone="kept-workspace:lian-output" if rel_in in INC_MANAGED else "kept-workspace:foreign-entry")
             continue
         if op == "mkdir" and fs.inside(ws, path):
             bump(f"{channel}: mkdir of a workspace ancestor")
@@ -575,6 +635,61 @@ def neutralise_env(home):
     tempfile.tempdir = None
 
 
+def history_stage(cfg, plan, cli_env=None):
+    """For the two-step histories: produce the existing workspace with a real forced run of the same command
+    (pristine process: a forked grandchild, or a plain CLI process when cli_env is given), then leave user files
+    in it and/or edit the input.  Returns a short description of what was done (None for one-step configurations)."""
+    pre = cfg["pre"]
+    if pre not in HISTORY_PRES:
+        return None
+    done = []
+    if cli_env is not None:
+        main_py = os.path.join(common.REPO, "src", "lian", "main.py")
+        pr = subprocess.run([sys.executable, main_py] + plan["argv_prior"][1:], cwd=plan["cwd"] or "/", env=cli_env,
+                            stdout=subprocess.DEVNULL, stderr=subprocess.DEVNULL, timeout=900)
+        done.append(f"prior forced CLI run exit {pr.returncode}")
+    else:
+        sys.stdout.flush()
+        pid = os.fork()
+        if pid == 0:
+            code = 0
+            try:
+                if plan["cwd"]:
+                    os.chdir(plan["cwd"])
+                sys.argv = list(plan["argv_prior"])
+                import lian.main as lm
+                lm.Lian().run()
+            except SystemExit:
+                code = 3
+            except BaseException:   # noqa
+                code = 4
+            finally:
+                sys.stdout.flush()
+                os._exit(code)
+        _, st = os.waitpid(pid, 0)
+        done.append(f"prior forced run exit {os.waitstatus_to_exitcode(st)}")
+    ws = plan["ws_real"]
+    if "user" in pre and os.path.isdir(ws):
+        _w(f"{ws}/notes.txt", "user notes kept beside the results\n")
+        _w(f"{ws}/reports/triage.txt", "do not lose me\n")
+        os.makedirs(f"{ws}/reports/empty", exist_ok=True)
+        _w(f"{ws}/frontend/user_annotation.txt", "a note inside one of lian's own sub-directories\n")
+        _w(f"{ws}/{INC_BACKUP}/previous_generation/kept.txt", "the backup of the run before\n")
+        done.append("user files added")
+    if "edit" in pre:
+        m = plan["main_real"]
+        if os.path.isdir(m) and not fs.inside(m, ws):
+            with open(f"{m}/a.py", "a") as f:
+                f.write("\ndef added_later(b):\n    return b * 2\n")
+            _w(f"{m}/sub/new_module.py", "n = 5\n")
+            done.append("input edited")
+        elif os.path.isfile(m) and not fs.inside(m, ws):
+            with open(m, "a") as f:
+                f.write("later = 2\n")
+            done.append("input edited")
+    return "; ".join(done)
+
+
 PAD_TO = 2400
 
 
@@ -597,8 +712,9 @@ def run_config(item):
     holder, top = make_top(f"cfg{idx}_{os.getpid()}")
     try:
         plan = materialise(cfg, top)
-        exp = expectations(plan, cfg)
         neutralise_env(plan["home"])
+        history = history_stage(cfg, plan)
+        exp = expectations(plan, cfg)
         before = fs.snapshot(plan["root"])
         log = fs.AuditLog().install()
         if plan["cwd"]:
@@ -622,7 +738,7 @@ def run_config(item):
         cnt["audit: events inspected (all kinds)"] = log.seen
         cnt["audit: child processes spawned by lian"] = len(log.spawns)
         return {"fails": fails, "counters": cnt, "relation": exp["relation"], "conflict": exp["conflict"],
-                "outcome": outcome[0], "n_events": len(log.events),
+                "outcome": outcome[0], "n_events": len(log.events), "history": history,
                 "argv": [a.replace(plan["top"], "<top>") for a in plan["argv"]],
                 "cwd": (plan["cwd"] or "").replace(plan["top"], "<top>"),
                 "workspace": plan["ws_real"].replace(plan["top"], "<top>"),
@@ -640,8 +756,6 @@ def run_cli_config(item):
     holder, top = make_top(f"cli{idx}_{os.getpid()}")
     try:
         plan = materialise(cfg, top)
-        exp = expectations(plan, cfg)
-        before = fs.snapshot(plan["root"])
         env = dict(os.environ)
         home = plan["home"]
         os.makedirs(f"{home}/tmp", exist_ok=True)
@@ -651,6 +765,9 @@ def run_cli_config(item):
                     # the venv has /repo/src on its path; the tree under test ($LIAN_REPO) must win
                     "PYTHONPATH": os.path.join(common.REPO, "src") + (
                         os.pathsep + env["PYTHONPATH"] if env.get("PYTHONPATH") else "")})
+        history = history_stage(cfg, plan, cli_env=env)
+        exp = expectations(plan, cfg)
+        before = fs.snapshot(plan["root"])
         log_path = os.path.join(top, "strace.log")
         main_py = os.path.join(common.REPO, "src", "lian", "main.py")
         cmd = fs.STRACE_ARGS + ["-o", log_path, sys.executable, main_py] + plan["argv"][1:]
@@ -685,6 +802,7 @@ def run_cli_config(item):
         created, deleted, changed = fs.diff(before, after)
         return {"fails": fails, "counters": cnt, "relation": exp["relation"], "conflict": exp["conflict"],
                 "outcome": outcome[0], "n_events": len(events), "unclassified": parsed["unclassified"],
+                "history": history,
                 "wall": round(wall, 1), "effect": [sorted(created), sorted(deleted), sorted(p for p, _ in changed)],
                 "argv": [a.replace(plan["top"], "<top>") for a in plan["argv"]],
                 "workspace": plan["ws_real"].replace(plan["top"], "<top>"),
@@ -703,6 +821,7 @@ def run_effect_only(item):
     try:
         plan = materialise(cfg, top)
         neutralise_env(plan["home"])
+        history_stage(cfg, plan)
         before = fs.snapshot(plan["root"])
         if plan["cwd"]:
             os.chdir(plan["cwd"])
@@ -757,6 +876,29 @@ def family_configs(thorough):
         for pre in HOSTILE_PRES:
             for mode in ("inc", "force", "force-inc", "noforce"):
                 out.append(make_cfg("disjoint", N, "abs", "dir", pre, mode))
+    out += history_configs(thorough)
+    return out
+
+
+def history_configs(thorough):
+    """{no flags, -f, -inc, -inc -f} x {fresh workspace, foreign files only, output of a real earlier -f run, that
+    output plus user files, the same with the input edited in between}: what an existing workspace loses."""
+    out = []
+    pres = ["none", "files"] + HISTORY_PRES
+    modes = ["noforce", "force", "inc", "force-inc"]
+    names = ["default-omitted", "default-explicit", "containing", "plain"]
+    addrs = ["abs", "rel", "ws-is-link"]
+    i = 0
+    for P in PLACEMENTS[:3]:
+        for pre in pres:
+            for mode in modes:
+                combos = list(itertools.product(names, addrs)) if thorough else [
+                    (names[i % len(names)], addrs[(i // 2) % len(addrs)])]
+                for N, A in combos:
+                    c = make_cfg(P, N, A, ["dir", "several"][i % 2], pre, mode)
+                    if valid(c):
+                        out.append(c)
+                    i += 1
     return out
 
 
@@ -828,6 +970,13 @@ def cli_configs():
         make_cfg("identical", "containing", "ws-is-link", "dir", "files", "force"),
         make_cfg("disjoint", "containing", "ws-dotdot-link", "dir", "symlink-out", "force"),
         make_cfg("ws-beside-input", "default-explicit", "abs", "dir", "symlink-out", "force", "python-strict"),
+        # two-step histories (indexes 36..38: one of them falls into every quick subset of seeds 0..2)
+        make_cfg("disjoint", "plain", "abs", "dir", "lian-run+user", "inc"),
+        make_cfg("ws-inside-input", "default-omitted", "rel", "dir", "lian-run+user+edit", "inc"),
+        make_cfg("ws-beside-input", "containing", "abs", "several", "lian-run+user", "noforce"),
+        make_cfg("disjoint", "default-explicit", "ws-is-link", "dir", "lian-run+user+edit", "inc"),
+        make_cfg("ws-beside-input", "plain", "rel", "dir", "lian-run+user", "force-inc"),
+        make_cfg("ws-inside-input", "containing", "abs", "several", "lian-run+edit", "inc"),
     ):
         add(c)
     return out
@@ -837,6 +986,10 @@ def cli_configs():
 
 def absorb(chk, cfg, v, samples_by_rel, kind="config"):
     chk.evaluated(1)
+    if v.get("history"):
+        chk.count("history: configurations whose workspace came from a real earlier forced run")
+        if "exit 0" not in v["history"]:
+            chk.count("history: earlier forced run did not complete (e.g. its input lay in the workspace it wiped)")
     if v["counters"].get("audit: recorder errors (harness fault)"):
         chk.note_inconclusive(f"the audit recorder failed while observing {cfg_key(cfg)}")
     for k, n in v["counters"].items():
@@ -956,6 +1109,10 @@ def main():
     chk.require("snapshot: entries created inside the workspace", 3000)
     chk.require("snapshot: previous workspace entries deleted", 100)
     chk.require("bounded-copy: runs that copied at least one input file", 40)
+    # the un-forced --incremental contract must really have been put to the test on existing workspaces
+    chk.require("incremental: pre-existing workspace entries kept in place", 300)
+    chk.require("incremental: rewritten entries whose previous content is kept under bak/", 10)
+    chk.require("history: configurations whose workspace came from a real earlier forced run", 30)
     for rel in PLACEMENTS:
         chk.require(f"relation observed: {rel}", 5)
     chk.extra.pop("_samples_by_rel", None)
@@ -972,7 +1129,13 @@ def main():
         "counted, not asserted",
         "sub-command `lang` (workspace preparation + frontend); the semantic/taint phases write through the same "
         "Loader rooted at options.workspace and are not run here",
-        "--incremental without --force may rewrite the workspace's own content; it is held to (a), (b), (d) only",
+        "--incremental without --force (contract read off the unchanged backup_workspace): the previous content of "
+        "bak/ is replaced (single-generation backup; counted, not asserted); src, externs, frontend, semantic_p1..3, "
+        "state_flow_p2/p3_dot, taint are copied to bak/<same path> and may then be rewritten in place; every other "
+        "pre-existing entry of the workspace must survive in place with the same kind, content and link target, and "
+        "no delete/rename operation may hit a pre-existing entry outside bak/",
+        "two-step histories: the existing workspace is produced by a real `-f` run of the same command in a forked "
+        "grandchild (pristine lian modules) before the observed run; user files are then added and/or the input edited",
     ]
     sys.exit(chk.finish())
 
